@@ -215,6 +215,27 @@ func runC16(w *worker) func(c c16Case) *Failure {
 				return failf("not-repeatable", "encoding the same unmodified value again gave different bytes (round %d)", round)
 			}
 		}
+		// calls on OTHER values of the same type leave this one alone as well (whatever an earlier call
+		// kept of its argument): another value, by value and by pointer, then this one again
+		for round, other := range []interface{}{reflect.New(b.Type).Elem().Interface(), reflect.New(b.Type).Interface()} {
+			if _, f := fSize(other); f != nil {
+				return f
+			}
+			if _, f := encodeExact(other); f != nil {
+				f.Msg = "zero value of the type: " + f.Msg
+				return f
+			}
+			if f := same(fmt.Sprintf("a later call on another value of the type (round %d)", round)); f != nil {
+				return f
+			}
+			again, f := encodeExact(pv)
+			if f != nil {
+				return f
+			}
+			if co, _ := core.Canon(again); !bytes.Equal(first, co) {
+				return failf("not-repeatable", "after a call on another value of the same type, encoding the unmodified value gave different bytes")
+			}
+		}
 		// "never modify" includes "not for a moment": while two goroutines size and encode the value,
 		// a third one reads it (a value nobody writes may be shared); every reader and every encoder
 		// must see what a call made alone sees
